@@ -1020,6 +1020,20 @@ pub mod verif {
     do_remapping_loop_one_device(&mut adapter, layout, verbose)
   }
   
+  // Run the per-device loop with the REAL driver (mio/epoll, the evdev reader and
+  // writer) over file descriptors supplied by the caller (e.g. pipes) instead of
+  // opened devices.
+  pub fn run_real_driver_on_fds(keyboard_fd: std::os::unix::io::RawFd, tablet_fd: Option<std::os::unix::io::RawFd>,
+                                out_fd: std::os::unix::io::RawFd, layout: Layout) -> Result<(), String> {
+    let rw = RW {
+      r: DevInputReader { fd: keyboard_fd },
+      w: DevInputWriter::verif_from_fd(out_fd),
+      t: tablet_fd.map(|fd| TabletModeSwitchReader { fd })
+    };
+    let mut driver = RealDriver { rw };
+    do_remapping_loop_one_device(&mut driver, layout, false)
+  }
+  
   // (device name, excluded) for the keyboards listed by --all-keyboards
   pub fn flag_excluded_names(devices: Vec<ExtractedKeyboard>, excludes: &[&str]) -> Vec<(String, bool)> {
     flag_excluded(devices, excludes).into_iter().map(|d| (d.extracted_keyboard.name, d.excluded)).collect()
